@@ -25,7 +25,6 @@ def run_check(prop, root=None, tier="quick", seed=0):
     repo = Repo(root)
     ctx = Ctx(prop, repo, tier, seed)
     mod.run(ctx)
-    ctx.check_floors()
     return ctx
 
 
@@ -92,6 +91,8 @@ def main(argv):
                     print("      | %s" % w)
                 print("VIOLATION property=%s replay=%s" % (prop, p))
             return 1
+        # vacuity floors: only meaningful when no violation explains a missing instance
+        ctx.check_floors()
         return 0
     except AnalysisError as e:
         print("ANALYSIS-ERROR property=%s %s" % (prop, e))
